@@ -3,7 +3,9 @@
 //!
 //!   pvharness run <Cxx> <seed> <quick|thorough> <outdir>
 //!   pvharness replay <Cxx> <outdir> < caselines     (one case line per stdin line)
+mod c01;
 mod c18;
+mod term;
 mod out;
 mod rng;
 
@@ -29,6 +31,7 @@ fn main() {
             let mut out = out::Out::new();
             match prop {
                 "C18" => c18::run(seed, thorough, &mut out),
+                "C01" => c01::run(seed, thorough, &mut out),
                 _ => {
                     eprintln!("unknown property {}", prop);
                     std::process::exit(2);
@@ -49,6 +52,7 @@ fn main() {
                 }
                 match prop {
                     "C18" => c18::replay(line, &mut out),
+                    "C01" => c01::replay(line, &mut out),
                     _ => {
                         eprintln!("unknown property {}", prop);
                         std::process::exit(2);
